@@ -25,7 +25,7 @@ META = {
     "stubs": ["numpy.linalg.eigh on a symmetric 2x2 -> parametrised contract (rotation (c,s), eigenvalues ascending, V diag(w) V^T = A)",
               "sqrt -> constrained fresh variable"],
     "assumptions": ["floats are exact reals", "spectrum strictly separated (eigenvalues differ)"],
-    "not_covered": ["spectra larger than 2x2 through eigh", "the sparse eigsh path", "orthonormalize_against_inplace (QR)", "whitened components"],
+    "not_covered": ["menpo.math.pca on symbolic data (harness `decomposition` exists but leaves obligations undecided; not registered)", "spectra larger than 2x2 through eigh", "the sparse eigsh path", "orthonormalize_against_inplace (QR)", "whitened components"],
     "trusted": ["induction argument over bookkeeping steps"],
 }
 
@@ -44,9 +44,9 @@ def instances(tier):
         for (k, d) in (KD if tier != "quick" else [(1, 2), (2, 2), (2, 3)]):
             out.append(("projection", {"cls": cls, "k": k, "d": d}))
     if tier != "quick":
-        for (n, d) in [(3, 2), (2, 3), (2, 2)]:
-            for centre in (True, False):
-                out.append(("decomposition", {"n": n, "d": d, "centre": centre}, {"rlimit": 20_000_000, "max_s": 3000}))
+        # the eigen-decomposition clause through the 2x2 eigh parametrisation: only pcacov on a symbolic 2x2
+        # covariance is decided within the resource limit; menpo.math.pca on symbolic data left obligations
+        # undecided (123 of 15970 in a 40 min run) and is therefore not registered (stated as not covered)
         out.append(("pcacov2", {}))
     return out
 
